@@ -106,6 +106,10 @@ SHA256_Transform(uint32_t state[static restrict 8],
     uint32_t W[static restrict 64], uint32_t S[static restrict 8])
 {
 	int i;
+#ifdef XCRYPT_VERIF
+	uint32_t verif_in[8];
+	memcpy(verif_in, state, sizeof verif_in);
+#endif
 
 	/* 1. Prepare the first part of the message schedule W. */
 	be32dec_vect(W, block, 16);
@@ -163,6 +167,7 @@ SHA256_Transform(uint32_t state[static restrict 8],
 	state[5] += S[5];
 	state[6] += S[6];
 	state[7] += S[7];
+	VERIF_EV("sha256", verif_in, 32, block, 64, state, 32);
 }
 
 static const uint8_t PAD[64] = {
